@@ -29,8 +29,11 @@ package receiver
 //@   requires lock_free_on_entry: !held(r.mu)
 //@   lockcheck
 //@   modifies *
+// RunOnce is called from Receiver.Run's loop and from the sync loop, neither
+// of which holds a mutex.
 //@ func (r *Receiver) RunOnce
 //@   requires lock_free_on_entry: !held(r.mu)
+//@   goroutine
 //@   lockcheck
 //@   modifies *
 //@ func (r *Receiver) getDownloader
